@@ -25,6 +25,14 @@ CLAIMED = {
         text="Lean theorems (every stream, unbounded steps): without rules the SSA loop moves the state only by whole net stoichiometric columns, so the reported rows form a chain of non-negative integer combinations (ssa_run_lattice, via the C05 refinement); integrality and every linear conservation law follow (integrality, conservation); sample_discrete never indexes past the last reaction; a zero-propensity state persists (absorbing_step); in safe mode a positive propensity implies every reactant, catalysts included, is present in its required number (safe_full_complement). Tie: plain/safe SSA, volume and delay loops reproduced bit for bit; the invariants are also monitored on every implementation row (exact MILP lattice membership, null-space conservation, non-negativity, absorption, counting-species test of safe firings).",
         note=NOTE_COMMON + "loop-level non-negativity of mass-action networks is monitored on the implementation, not yet proved in Lean; lattice theorems are proved for the SSA loop (delay accounting is C10, volume C11).",
         technique="Lean 4 proof (loop invariants by induction over runs) + bit-exact correspondence + invariant monitor", ref="DESIGN.md §4 C06"),
+    "C10": dict(
+        text="Lean theorems (every stream): one iteration of the delay loop, split into its scheduling and acting halves, delivers the earliest queue slot (amounts x delayed stoichiometry) and advances the queue when the queue time comes first; a firing with positive delay applies the immediate column and makes exactly one insertion at firing time + delay; a non-positive delay applies both parts at once; the loop performs no other queue operation (so C20's queue_exactly_once covers the loop's insertions); SSA applies both parts; fixed/none/Gaussian delay samplers as exact functions of the stream. Tie: rows and final queue of DelaySSASimulator/DelayVolumeSSASimulator reproduced bit for bit; accounting oracle with counting species; sampler draws bit for bit.",
+        note=NOTE_COMMON + "partial: the loop-level accounting identity x + queued = x0 + sum firings is checked on the implementation (counting species) and follows informally from the step theorems + C20, not yet as one Lean theorem; sampler laws (Box-Muller, Marsaglia-Tsang) and zero-delay law equality are supported statistically only.",
+        technique="Lean 4 proof (step theorems over the verified queue) + bit-exact correspondence + accounting oracle", ref="DESIGN.md §4 C10"),
+    "C11": dict(
+        text="Lean theorems (every stream): the volume loop equals a flag-free jump process whose stops are grid times and volume ticks (volume_refines_spec, whole runs); its propensities are the svol forms whose closed forms are C01's (k/V, k*V, Hill on s/V); a tick multiplies the volume by exp(g*dt) (positive, non-decreasing for g>=0, V0*exp(g dt)^n after n ticks); rows/trace/index stay aligned; stop is raised only by a dividing tick and equals the divided flag. Tie: rows, volume trace, time axis and flag reproduced bit for bit for Volume, StochasticTimeThresholdVolume (noise 0 and >0) and StateDependentVolume; growth/division oracle on implementation output; G-test vs volume-scaled CME.",
+        note=NOTE_COMMON + "law-level statement partial as in C05.",
+        technique="Lean 4 proof (refinement + growth algebra) + bit-exact correspondence + growth/division oracle", ref="DESIGN.md §4 C11"),
 }
 PENDING = {}
 def main():
